@@ -359,11 +359,82 @@ func parseContracts(path string) ([]*Contract, []*SpecDef, error) {
 		if src == nil {
 			return nil, nil, fmt.Errorf("%s:%d: like: unknown block %q", path, c.Line, c.Like)
 		}
+		// definitions whose body mentions a substituted identifier (directly or through another definition) get a
+		// substituted copy, and the copied clauses call the copy: entriesKept() of a generic twin must speak
+		// about the twin's entry type
+		hasIdent := func(s, id string) bool { return replaceIdent(s, id, "\x00") != s }
+		affected := map[string]bool{}
+		for changed := true; changed; {
+			changed = false
+			for _, d := range defs {
+				if affected[d.Name] || strings.Contains(d.Name, "__") {
+					continue
+				}
+				hit := false
+				for _, kv := range c.Subst {
+					isParam := false
+					for _, pn := range d.Params {
+						if pn == kv[0] {
+							isParam = true
+						}
+					}
+					if !isParam && hasIdent(d.Body.Text, kv[0]) {
+						hit = true
+					}
+				}
+				for n := range affected {
+					if hasIdent(d.Body.Text, n) {
+						hit = true
+					}
+				}
+				if hit {
+					affected[d.Name] = true
+					changed = true
+				}
+			}
+		}
+		suffix := "__"
+		for _, kv := range c.Subst {
+			suffix += sanitizeIdent(kv[0] + "_" + kv[1] + "_")
+		}
 		sub := func(s string) string {
 			for _, kv := range c.Subst {
 				s = replaceIdent(s, kv[0], kv[1])
 			}
+			for n := range affected {
+				s = replaceIdent(s, n, n+suffix)
+			}
 			return s
+		}
+		for _, d := range append([]*SpecDef{}, defs...) {
+			if !affected[d.Name] {
+				continue
+			}
+			dup := false
+			for _, d2 := range defs {
+				if d2.Name == d.Name+suffix {
+					dup = true
+				}
+			}
+			if dup {
+				continue
+			}
+			body := d.Body.Text
+			for _, kv := range c.Subst {
+				isParam := false
+				for _, pn := range d.Params {
+					if pn == kv[0] {
+						isParam = true
+					}
+				}
+				if !isParam {
+					body = replaceIdent(body, kv[0], kv[1])
+				}
+			}
+			for n := range affected {
+				body = replaceIdent(body, n, n+suffix)
+			}
+			defs = append(defs, &SpecDef{Name: d.Name + suffix, Params: d.Params, Line: d.Line, Body: &Clause{Text: body, Line: d.Body.Line, Flags: map[string]bool{}}})
 		}
 		cp := func(cs []*Clause) []*Clause {
 			var o []*Clause
@@ -837,6 +908,16 @@ func replaceIdent(s, from, to string) string {
 		}
 		b.WriteByte(s[i])
 		i++
+	}
+	return b.String()
+}
+
+func sanitizeIdent(s string) string {
+	var b strings.Builder
+	for _, r := range s {
+		if r == '_' || (r >= 'a' && r <= 'z') || (r >= 'A' && r <= 'Z') || (r >= '0' && r <= '9') {
+			b.WriteRune(r)
+		}
 	}
 	return b.String()
 }
